@@ -113,6 +113,14 @@ def build(repo=None):
 
             eng.method_models["rsplit"] = m_rsplit
 
+            def ill_typed(e, s, sort, kind, v):
+                # data-structure invariant of the context: the single-axis memo maps axis names to int sizes (what shape_str prints and
+                # what symbolic expressions are evaluated over); anything else stored in it is not a binding of the C01 statement
+                e.oblige(s, f"C01:memo-typing:only-{kind}-values-are-stored-in-a-memo-of-{kind}", z3.BoolVal(False))
+                return z3.FreshConst(sort, "ill_typed_store")
+
+            eng.method_models["__ill_typed_store__"] = ill_typed
+
             st = State()
             # the context view
             s0m, s0d = z3.Const("sigma_m", SIG_M), z3.Const("sigma_d", SIG_D)
@@ -357,9 +365,9 @@ def build(repo=None):
         ob.setdefault("kind", "vc")
         c = ob["clause"]
         if c.startswith("C04:"):
-            ob["serves"] = ["C04", "C12"]
+            ob["serves"] = ["C04", "C12", "C13"]  # C13: the bindings listed in an error are none taken from the check that failed
         elif c.startswith("C01:") or c.startswith("call:"):
-            ob["serves"] = ["C01", "C02", "C17"]
+            ob["serves"] = ["C01", "C02", "C17", "C16"]
         ob["function"] = FUNC
         out.append(ob)
     return {
